@@ -5,7 +5,7 @@ from __future__ import annotations
 import ast
 
 from ..astq import attr_stores, body_walk, dotted, src, walk_local, norm_stmt, fn_calls, tail
-from ..cfg import CFG
+from ..cfg import CFG, T
 from ..dataflow import ReachingDefs, walk_table
 from ..loader import Undecided
 from ..report import Check
@@ -169,6 +169,29 @@ def r2_truthful(chk: Check):
     rs = return_set(js, st.node)
     chk.require("None" not in rs, chk.fkey(st, "return set"), f"aio_start may return None ({sorted(rs)}): aio_submit would report ERROR without the job being final", chk.loc(st.module, st.node),
                 okmsg=f"returns {sorted(rs)}")
+    # provenance of success: the constant DONE appears only as the `== 0` arm of an exit-code mapping, or stored under the presence of the success marker;
+    # aio_start itself decides nothing else than WAITING (start aborted) / ERROR (start or run failed)
+    for modq in [("scheduler.base", "Scheduler.aio_start"), ("scheduler.base", "Scheduler.aio_submit")]:
+        f = tree.func(*modq)
+        gf = CFG(f.node)
+        rdf = ReachingDefs(gf)
+        for nn in gf.live:
+            for x in nn.walk():
+                if not (isinstance(x, ast.Attribute) and js.const(x) is not None and isinstance(x.ctx, ast.Load)):
+                    continue
+                par = getattr(x, "_parent", None)
+                if isinstance(par, ast.Compare) or (isinstance(par, ast.IfExp) and x is not par.test and {js.const(par.body), js.const(par.orelse)} == {"DONE", "ERROR"}):
+                    continue  # a test / an arm of the exit-code mapping (decided above)
+                k = js.const(x)
+                is_value = (nn.kind == "stmt" and isinstance(nn.ast, (ast.Return, ast.Assign)) and nn.ast.value is x)
+                if not is_value:
+                    continue
+                if k == "DONE":
+                    gs = [(rdf.canon(t.ast, t), pol) for t, pol in gf.guards(nn) if t.kind == "test"]
+                    ok = any("donepath" in c and (c.endswith(".exists()") or c.endswith(".is_file()")) and pol is True for c, pol in gs)
+                    chk.require(ok, chk.fkey(f, "DONE without evidence"), f"`{src(nn.ast)}` (line {nn.lineno}) decides DONE under {gs}: success may only come from exit code 0 or from the success marker", chk.loc(f.module, x))
+                elif modq[1].endswith("aio_start"):
+                    chk.require(k in ("WAITING", "ERROR"), chk.fkey(f, f"verdict {k}"), f"`{src(nn.ast)}` (line {nn.lineno}): aio_start may only answer WAITING (start aborted), ERROR, or the mapped exit code", chk.loc(f.module, x))
     # code unknown -> success marker decides: every definition through which the constant 0 can reach the exit-code
     # variable under `code is None` is guarded by the presence of the success marker
     g = CFG(st.node)
@@ -377,6 +400,81 @@ def r5_no_lost_wakeup(chk: Check):
                         "after an aborted start (aio_start returned WAITING, decided before its last await) aio_submit goes back to waiting for the ready "
                         "event without re-deriving readiness from job.unsatisfied: a notification that arrived during the abort is overwritten and the job sleeps forever",
                         chk.loc(sub.module, s.ast))
+    # ... and the re-derivation has its effect: WAITING with every dependency satisfied => READY and the ready event set before the next wait
+    def make_classify(state):
+        def classify(n):
+            ts = js.test_set(n.ast, "job")
+            if ts is not None:
+                return ("#", state in ts)
+            if src(n.ast) == T("job.unsatisfied == 0"):
+                return ("zero", True)
+            return None
+        return classify
+
+    def ready_store(n):
+        return n.kind == "stmt" and isinstance(n.ast, ast.Assign) and src(n.ast.targets[0]) == "job.state" and value_states(js, n.ast.value, n, rd, retsets) == {"READY"}
+
+    def events(n):
+        return ["wake"] if any((dotted(c.func) or "").endswith("_readyEvent.set") for c in n.calls()) else []
+
+    def stop_a(n):
+        if ready_store(n):
+            return "ready"
+        if n in waits:
+            return "wait"
+        if n is g.exit or n is g.raise_:
+            return "leaves"
+        return None
+
+    def stop_b(n):
+        if n in waits:
+            return "wait"
+        if n is g.exit or n is g.raise_:
+            return "leaves"
+        return None
+
+    for s_ in stores:
+        for m, _l in s_.succ:
+            # phase A: the state is WAITING and every dependency is satisfied
+            for o in walk_table(g, m, make_classify("WAITING"), {"#": True, "zero": True}, events, stop_a):
+                ok = o.end == "ready"
+                woke = "wake" in o.events
+                if ok and not woke:
+                    # phase B: the state is READY until the next wait
+                    rs = [n for n in g.live if ready_store(n) and n.id in g.reachable(m)]
+                    for r_ in rs:
+                        for m2, _ in r_.succ:
+                            for o2 in walk_table(g, m2, make_classify("READY"), {"#": True, "zero": True}, events, stop_b):
+                                if o2.end == "wait" and "wake" not in o2.events:
+                                    ok = False
+                if o.end == "leaves":
+                    continue
+                chk.require(ok, chk.fkey(sub, "aborted start with satisfied dependencies -> READY + wake"),
+                            f"after an aborted start with every dependency satisfied meanwhile, aio_submit reaches {'the next wait' if o.end == 'wait' else 'READY'} "
+                            f"{'without setting the ready event' if o.end == 'ready' else 'without making the job READY'}: "
+                            "the job must be made READY and its ready event set, or it sleeps forever", chk.loc(sub.module, s_.ast))
+    # a job without dependencies is READY and woken before the first suspension point
+    def cl0(n):
+        t = src(n.ast)
+        if t in ("job.dependencies", T("len(job.dependencies) > 0")):
+            return ("deps", True)
+        if t == T("len(job.dependencies) == 0"):
+            return ("deps", False)
+        return None
+
+    def ev0(n):
+        out = []
+        if n.kind == "stmt" and isinstance(n.ast, ast.Assign) and src(n.ast.targets[0]) == "job.state":
+            out.append("state " + "|".join(sorted(value_states(js, n.ast.value, n, rd, retsets))))
+        if any((dotted(c.func) or "").endswith("_readyEvent.set") for c in n.calls()):
+            out.append("wake")
+        return out
+
+    outs0 = walk_table(g, g.entry, cl0, {"deps": False}, ev0, lambda n: "await" if n.has_await() else ("leaves" if n is g.exit or n is g.raise_ else None))
+    bad0 = [list(o.events) for o in outs0 if o.end == "await" and not ("state READY" in o.events and "wake" in o.events)]
+    chk.require(bool(outs0) and not bad0, chk.fkey(sub, "no dependencies -> READY + wake"),
+                f"a job without dependencies reaches the first suspension point of aio_submit having done {bad0[:1]}: it must be READY with its ready event set (nothing else will ever wake it)",
+                chk.loc(sub.module, sub.node))
     # dependency registration precedes the first check (a release between check and registration would be lost)
     found_inline = False
     for n in g.live:
